@@ -969,8 +969,12 @@ def gen_site(r, idx):
                 tp = r.choice(bad) if bad and r.randrange(3) else r.choice(cands)
                 g = '/go%d-%d' % (len(meta['hosts'][h]['pages']), nredir)
                 nredir += 1
-                site[h][g] = dict({'status': r.choice([301, 302, 303, 307, 308]), 'location': tp if th == h else 'http://%s:{PORT}%s' % (th, tp),
-                                   'body': ''}, **cookie)
+                loc = tp if th == h else 'http://%s:{PORT}%s' % (th, tp)
+                if r.randrange(3) == 0:
+                    # an absolute Location whose path is not normalised (doubled slash, dot segments): wpull requests the flattened
+                    # path, and it is that path the rules apply to
+                    loc = 'http://%s:{PORT}%s' % (th, r.choice(['/' + tp, '/.' + tp, '/zz/..' + tp, tp.replace('/t', '//t', 1)]))
+                site[h][g] = dict({'status': r.choice([301, 302, 303, 307, 308]), 'location': loc, 'body': ''}, **cookie)
                 meta['hosts'][h]['pages'][g] = {'redirect': (th, tp)}
                 site[th].setdefault(tp, {'body': 'target'})
                 meta['hosts'][th]['pages'].setdefault(tp, {'links': [], 'inline': [], 'nofollow': False})
